@@ -377,32 +377,44 @@ def apply_verdicts(chk: Check, pending: List[Dict[str, Any]], res: Dict[Any, Any
 
 # ---------------------------------------------------------------- spec -> code
 FAMILIES = {
-    # name: (cfg constants quick, cfg constants thorough)
+    # name: (cfg constants quick, cfg constants thorough, replay limit quick, replay limit thorough)
+    # three classes: single and multiple inheritance, every extend form, 4 (6) Media contents
     "media": (dict(maxn=3, lists="ListsQuick", kinds="KindsBasic", trim=True),
-              dict(maxn=3, lists="ListsThorough", kinds="KindsAll")),
+              dict(maxn=3, lists="ListsThorough", kinds="KindsAll"), None, None),
+    # the pair rule and the rejection of both members
     "attr": (dict(maxn=3, lists="ListsNone", kinds="KindsNone", attrs="AttrsAll"),
-             dict(maxn=4, lists="ListsNone", kinds="KindsNone", attrs="AttrsAll")),
+             dict(maxn=3, lists="ListsNone", kinds="KindsNone", attrs="AttrsAll"), None, None),
+    # four classes (diamonds): pair rule along the C3 MRO / Media through two paths
+    "attr4": (dict(maxn=4, lists="ListsNone", kinds="KindsNone", attrs="AttrsFew"),
+              dict(maxn=4, lists="ListsNone", kinds="KindsNone", attrs="AttrsFew"), 1500, None),
+    "media4": (dict(maxn=4, lists="ListsTiny", kinds="KindsBasic", exts="ExtsTF", trim=True),
+               dict(maxn=4, lists="ListsTiny", kinds="KindsBasic", exts="ExtsTF", trim=True), 1000, 20000),
+    # component-relative files, media read before / after template, js, css
     "rel": (dict(maxn=2, lists="ListsRel", kinds="KindsBasic", attrs="AttrsFew", rel="Rel1"),
-            dict(maxn=3, lists="ListsRel", kinds="KindsBasic", attrs="AttrsFew", rel="Rel1", exts="ExtsTF")),
+            dict(maxn=3, lists="ListsRel", kinds="KindsBasic", attrs="AttrsFew", rel="Rel1", exts="ExtsTF"),
+            1000, 20000),
 }
+ORDER = ("attr", "rel", "attr4", "media4", "media")     # cheap exports first
+_export_cache: Dict[Any, Any] = {}
 
 
 def plans(fam: str, m: int, idx: int, all_orders: bool) -> List[List[List[Any]]]:
     """Access histories driven on one exported hierarchy with m usable classes."""
     perms = list(itertools.permutations(range(1, m + 1)))
     if not all_orders and len(perms) > 2:
-        perms = [perms[(2 * idx) % len(perms)], perms[(2 * idx + 1 + idx // len(perms)) % len(perms)]]
+        first, L = (2 * idx) % len(perms), len(perms)
+        perms = [perms[first], perms[(first + 1 + (idx // L) % (L - 1)) % L]]
     elif len(perms) > 8:
         rnd = random.Random(idx)
         perms = [perms[0], perms[-1]] + rnd.sample(perms[1:-1], 6)
     out = []
     for n, perm in enumerate(perms):
         v = ["cls", "inst"] if (idx + n) % 2 == 0 else ["inst", "cls"]
-        if fam == "media":
+        if fam.startswith("media"):
             acc = [[c, "media", v[i % 2]] for i, c in enumerate(perm)]
             acc += [[c, "media", v[(c + 1) % 2]] for c in range(1, m + 1)]
             out.append(acc)
-        elif fam == "attr":
+        elif fam.startswith("attr"):
             ps = PAIRS[n % 3:] + PAIRS[:n % 3]
             out.append([[c, p, v[(i + j) % 2]] for i, c in enumerate(perm) for j, p in enumerate(ps)])
         else:
@@ -445,6 +457,8 @@ def _replay_chunk(args):
 
 def export_cases(fam: str, quick: bool):
     """TLC: build and export every hierarchy of the family (runs in a thread)."""
+    if (fam, quick) in _export_cache:
+        return _export_cache[(fam, quick)]
     w = workdir("c16mc")
     consts = FAMILIES[fam][0 if quick else 1]
     cfg = w / f"mc_{fam}.cfg"
@@ -454,7 +468,8 @@ def export_cases(fam: str, quick: bool):
     rows = tlc.read_ndjson(out)
     if len(rows) != r.distinct - 1:
         raise MachineryError(f"export incomplete: {len(rows)} rows for {r.distinct} states")
-    return rows, r.distinct, r.generated, consts["maxn"]
+    _export_cache[(fam, quick)] = (rows, r.distinct, r.generated, consts["maxn"])
+    return _export_cache[(fam, quick)]
 
 
 def replay_cases(chk: Check, fam: str, quick: bool, exported, pool, limit: Optional[int] = None):
@@ -611,14 +626,14 @@ def _body(chk: Check, quick: bool, small: bool = False) -> None:
     pool = None if small else mp.get_context("fork").Pool(REPLAY_PROCS)
     try:
         with ThreadPoolExecutor(max_workers=8) as ex:
-            exports = {fam: ex.submit(export_cases, fam, quick) for fam in ("attr", "rel", "media")}
+            exports = {fam: ex.submit(export_cases, fam, quick) for fam in ORDER}
             machine = None if small else ex.submit(model_check_machine, quick)
             judged = []          # (pending runs, future of their TLC verdicts, py_flagged)
-            rnd_runs = random_traces(chk, 120 if small else (1000 if quick else 12000))
+            rnd_runs = random_traces(chk, 250 if small else (1000 if quick else 12000))
             judged.append((rnd_runs, ex.submit(tlc_validate, as_traces(rnd_runs), "random"), False))
             phase["random_recorded"] = round(time.time() - t_start, 1)
-            for fam in ("attr", "rel", "media"):
-                limit = 600 if small else (1000 if quick and fam == "rel" else None)
+            for fam in ORDER:
+                limit = 400 if small else FAMILIES[fam][2 if quick else 3]
                 pend = replay_cases(chk, fam, quick, exports[fam].result(), pool, limit=limit)
                 judged.append((pend, ex.submit(tlc_validate, as_traces(pend), f"explain_{fam}"), True))
                 phase[f"{fam}_replayed"] = round(time.time() - t_start, 1)
@@ -673,5 +688,158 @@ def replay(path: str) -> int:
     return 1 if r["verdict"] == "reject" or r["known"] else 0
 
 
+def _variant(mod, fn_name: str, edits: List[Tuple[str, str]]):
+    """A copy of a library function with source-level edits (a realistic bug); None if the source
+    no longer contains the edited text (probe inapplicable)."""
+    import inspect
+    src = inspect.getsource(getattr(mod, fn_name))
+    for old, new in edits:
+        if old not in src:
+            return None
+        src = src.replace(old, new)
+    g = mod.__dict__
+    orig = g[fn_name]
+    try:
+        exec(compile(src, f"<probe {fn_name}>", "exec"), g)
+        return g[fn_name]
+    finally:
+        g[fn_name] = orig
+
+
 def selftest(tier: str) -> int:
-    raise MachineryError("selftest not built yet")
+    """(i) corrupted recorded traces must be rejected with the right clause; (ii) in-process
+    mutation probes of component_media.py must each be reported as a violation that no named
+    deviation explains; (iii) with the three proposed repairs applied in-process (and their
+    findings no longer listed) the check must be clean.  Never touches /repo."""
+    from contextlib import contextmanager
+    world()
+    import django_components.component_media as cm
+
+    @contextmanager
+    def patch(obj, name, new):
+        old = getattr(obj, name)
+        setattr(obj, name, new)
+        try:
+            yield
+        finally:
+            setattr(obj, name, old)
+
+    def media_probe(*edits):
+        def cmgr():
+            fn = _variant(cm, "_get_comp_cls_media", list(edits))
+            if fn is None:
+                raise MachineryError("probe inapplicable: source text not found")
+            return patch(cm, "_get_comp_cls_media", fn)
+        return cmgr
+
+    def attr_probe(*edits):
+        def cmgr():
+            fn = _variant(cm, "_get_comp_cls_attr", list(edits))
+            if fn is None:
+                raise MachineryError("probe inapplicable: source text not found")
+            return patch(cm, "_get_comp_cls_attr", fn)
+        return cmgr
+
+    LIST = "        else:\n            bases = media_extend\n"
+    probes = [
+        ("extend-list-ignored", media_probe((LIST, "        else:\n            bases = curr_cls.__bases__\n"))),
+        ("extend-list-added-to-bases",
+         media_probe((LIST, "        else:\n            bases = (*curr_cls.__bases__, *media_extend)\n"))),
+        ("extend-false-ignored",
+         media_probe(("        elif media_extend is False:\n            bases = tuple()\n",
+                      "        elif media_extend is False:\n            bases = curr_cls.__bases__\n"))),
+        ("only-first-base-merged", media_probe(("        for base in bases:\n", "        for base in list(bases)[:1]:\n"))),
+        ("grandparents-only-if-already-memoised (order dependent)",
+         media_probe(("        if unresolved_bases:\n", "        if unresolved_bases and curr_cls is comp_cls:\n"))),
+        ("memo-keyed-by-class-name",
+         media_probe(("        if curr_cls in media_cache:\n            continue\n",
+                      "        if any(k.__name__ == curr_cls.__name__ and k.__module__ != curr_cls.__module__ and "
+                      "k.__module__.startswith('vf_c16') for k in list(media_cache)[-3:]):\n"
+                      "            media_cache[curr_cls] = next(v for k, v in reversed(list(media_cache.items())) "
+                      "if k.__name__ == curr_cls.__name__ and k is not curr_cls)\n"
+                      "        if curr_cls in media_cache:\n            continue\n"))),
+        ("css-media-types-other-than-all-dropped-on-merge",
+         media_probe(("css=merged_media._css)", "css={k: v for k, v in merged_media._css.items() if k == 'all'})"))),
+        ("base-files-replace-own-files",
+         media_probe(("media = media_cls(js=merged_media._js, css=merged_media._css)",
+                      "media = media_cls(js=base_media._js or merged_media._js, css=merged_media._css)"))),
+        ("pair-rule-dropped (nearest non-null value of the attribute itself)",
+         attr_probe(('if attr in ("js", "js_file"):', "if False:"), ('if attr in ("css", "css_file"):', "if False:"),
+                    ('if attr in ("template", "template_file"):', "if False:"))),
+        ("pair-rule-only-for-js",
+         attr_probe(('if attr in ("css", "css_file"):', "if False:"),
+                    ('if attr in ("template", "template_file"):', "if False:"))),
+        ("attribute-walk-depth-first-instead-of-mro",
+         attr_probe(("    for base in comp_cls.mro():\n",
+                     "    def _dfs(k, seen):\n"
+                     "        if k in seen:\n            return []\n"
+                     "        seen.add(k)\n"
+                     "        return [k] + [x for b in k.__bases__ for x in _dfs(b, seen)]\n"
+                     "    for base in _dfs(comp_cls, set()):\n"))),
+        ("bases-not-loaded-on-child-access (order dependent)",
+         attr_probe(("        if not comp_media.resolved:\n", "        if not comp_media.resolved and base is comp_cls:\n"))),
+        ("both-members-accepted", lambda: patch(cm.ComponentMedia, "__post_init__", lambda self: None)),
+    ]
+
+    # ---- (i) corrupted traces
+    chk0 = Check(PID, "quick", "other", silent=True)
+    runs = random_traces(chk0, 150)
+    res = tlc_validate(as_traces(runs), "st_base")
+    good = [p for i, p in enumerate(runs) if res[i + 1]["verdict"] == "accept" and not res[i + 1]["known"]]
+    corrupted, want = [], []
+    for p in good:
+        evs = json.loads(json.dumps(p["events"]))
+        med = [e for e in evs if e["op"] == "access" and e["a"] == "media" and not e["exc"]]
+        att = [e for e in evs if e["op"] == "access" and e["a"] != "media" and not e["exc"]]
+        kind = len(corrupted) % 4
+        if kind == 0 and med:
+            med[-1]["js"] = med[-1]["js"] + [UNKNOWN]
+            want.append("F.js")
+        elif kind == 1 and any(e["all"] for e in med):
+            e = next(e for e in med if e["all"])
+            e["all"] = e["all"] + e["all"][:1]
+            want.append("O.all")
+        elif kind == 2 and att:
+            att[0]["src"] = att[0]["src"] + 1
+            want.append("N." + att[0]["a"])
+        elif kind == 3 and any(e["print"] for e in med):
+            e = next(e for e in med if e["print"])
+            e["print"] = e["print"][1:]
+            want.append("F.print")
+        else:
+            continue
+        corrupted.append({"cls": p["cls"], "rel": p["rel"], "events": evs})
+    res = tlc_validate(as_traces(corrupted), "st_corrupt")
+    missed = [i for i in range(len(corrupted))
+              if res[i + 1]["verdict"] != "reject" or want[i] not in res[i + 1]["clauses"]]
+    print(f"selftest {PID}: corrupted traces rejected with the right clause: {len(corrupted) - len(missed)}/{len(corrupted)}")
+    ok = not missed and len(corrupted) >= 20
+
+    # ---- (ii) mutation probes
+    def body(chk: Check) -> None:
+        _body(chk, True, small=True)
+    from .core import run_probes
+    ok = run_probes(PID, probes, body) == 0 and ok
+
+    # ---- (iii) the proposed repairs, applied in-process, leave nothing to report
+    fixed = _variant(cm, "_get_comp_cls_media", [
+        ('media_input = getattr(curr_cls, "Media", None)', 'media_input = curr_cls.__dict__.get("Media", None)'),
+        ("            media = media_cls(js=merged_media._js, css=merged_media._css)\n",
+         "            media = media_cls()\n            media._js_lists = merged_media._js_lists\n"
+         "            media._css_lists = merged_media._css_lists\n"),
+        ('        media_cls = getattr(curr_cls, "media_class", MediaCls)\n',
+         '        _cm = curr_cls.__dict__.get("_component_media", None)\n'
+         "        if _cm is not None and not _cm.resolved:\n            _resolve_media(curr_cls, _cm)\n"
+         '        media_cls = getattr(curr_cls, "media_class", MediaCls)\n'),
+    ])
+    if fixed is None:
+        print("  repaired variant: inapplicable (source changed)")
+    else:
+        chk = Check(PID, "quick", "other", silent=True)
+        for k in KEYS.values():
+            chk.known.findings.pop((PID, k), None)
+        with patch(cm, "_get_comp_cls_media", fixed):
+            body(chk)
+        print(f"  repaired variant (3 proposed fixes, no finding listed): violations={chk.violations}")
+        ok = ok and chk.violations == 0
+    return 0 if ok else 1
